@@ -10,7 +10,7 @@
    - repr / float() / bytes.decode / encodability: finite tables computed by
      the interpreter for exactly the arguments that occur in the case. *)
 From Coq Require Import List NArith ZArith Bool Floats.
-From Pcfg Require Import TextFile Counters Reader.
+From Pcfg Require Import ProbAlg F64 TextFile Counters Reader CountersF64.
 From PcfgGen Require Import Consts_gen.
 Import ListNotations.
 Open Scope N_scope.
@@ -70,7 +70,9 @@ Definition pair_eqb_sf (a b : str * float) : bool := str_eqb (fst a) (fst b) && 
 (* a terminal / mask / e-mail / website / year / context counter -> its file *)
 Definition check_counter_file (c : (list (str * N) * list (float * str)) * str) : bool :=
   match c with (cnt, rt, text) =>
-    str_eqb (write_file (tbl_repr rt) (calc_probs (@of_counts FNum cnt))) text
+    str_eqb (write_file (tbl_repr rt) (calc_probs (@of_counts FNum cnt))) text &&
+    (* and the counter meets the hypotheses of calc_probs_F64_wf (sorted, in [0,1] in binary64) *)
+    (is_nil cnt || f64_wf_hyps (@of_counts FNum cnt))
   end.
 
 (* the label lists of all parsed passwords -> Grammar/grammar.txt,
@@ -89,6 +91,7 @@ Definition check_struct_files (c : struct_case) : bool :=
   let sc := count_structs (st_labels c) in
   let w := fun ctr : counter FNum => write_file (tbl_repr (st_repr c)) (calc_probs ctr) in
   str_eqb (w (with_markov (O := FNum) (st_cov c) (st_n c) (of_counts (sc_base sc)))) (st_grammar c) &&
+  f64_wf_hyps (with_markov (O := FNum) (st_cov c) (st_n c) (of_counts (sc_base sc))) &&
   str_eqb (w (@of_counts FNum (sc_raw sc))) (st_raw c) &&
   str_eqb (w (@of_counts FNum (sc_prince sc))) (st_prince c).
 
